@@ -20,7 +20,17 @@
        and garbles anything else.
    v2 contract status is modelled because the formation/resolution code panics on unexpected
    statuses; pending and rejected are not distinguished (RejectContracts is not modelled: the element
-   code treats both alike).  No proofs here. *)
+   code treats both alike, and no element row ever belongs to such a contract).
+
+   Which rows the per-block refresh touches is explicit: [selection] is a predicate on the columns of
+   the contracts_v2 row an element belongs to (contract_status — confirmation_index/resolution_index
+   are determined by it — and renewed_to); getContractStateElements at HEAD has no join and no WHERE
+   clause, i.e. [sel_all].  Every definition from the refresh upwards takes the selection as a
+   parameter ([..._g]); the model of the code is the instance at [sel_all].
+     persist/sqlite/contracts.go   RenewV2Contract / updateResolvedV2Contract: renewed_to is written when the
+                                   renewal is negotiated (RPC), without any chain event, and never cleared
+     host/contracts/manager.go     RenewV2Contract (no status check on the existing contract)
+   No proofs here. *)
 From HostdBase Require Import Base.
 Set Implicit Arguments.
 
@@ -45,11 +55,12 @@ Record ielem := { ie_idx : idx; ie_basis : option idx }.
 
 Record state := {
   contracts : list (N * cstatus);   (* contracts_v2: contract id -> status *)
+  renewed : list (N * N);           (* contracts_v2.renewed_to: contract -> the renewal negotiated for it *)
   celems : list celem;              (* keyed by contract *)
   ielems : list ielem;              (* keyed by block id *)
   tip : option idx                  (* last_scanned_index *)
 }.
-Definition init : state := {| contracts := []; celems := []; ielems := []; tip := None |}.
+Definition init : state := {| contracts := []; renewed := []; celems := []; ielems := []; tip := None |}.
 
 (** * Blocks as the contract manager sees them *)
 Inductive rkind := KSuccessful | KRenewed | KFailed.
@@ -76,13 +87,15 @@ Definition upd_revert (b : block) (basis : option idx) (born : idx) : res (optio
        | None => Ok None
        end.
 
-(* UpdateContractElementProofs / UpdateChainIndexElementProofs: every stored row goes through the updater *)
-Definition cupd_apply (b : block) (l : list celem) : list celem :=
-  map (fun e => {| ce_cid := ce_cid e; ce_basis := upd_apply b (ce_basis e) (ce_born e);
-                   ce_born := ce_born e; ce_rev := ce_rev e |}) l.
+(* the updater run over a list of rows *)
+Definition upd1_apply (b : block) (e : celem) : celem :=
+  {| ce_cid := ce_cid e; ce_basis := upd_apply b (ce_basis e) (ce_born e); ce_born := ce_born e; ce_rev := ce_rev e |}.
+Definition cupd_apply (b : block) (l : list celem) : list celem := map (upd1_apply b) l.
 Definition iupd_apply (b : block) (l : list ielem) : list ielem :=
   map (fun e => {| ie_idx := ie_idx e; ie_basis := upd_apply b (ie_basis e) (ie_idx e) |}) l.
 
+(* UpdateChainIndexElementProofs: every stored row goes through the updater (getChainStateElements
+   reads the whole table) *)
 Fixpoint cupd_revert (b : block) (l : list celem) : res (list celem) :=
   match l with
   | [] => Ok []
@@ -98,6 +111,37 @@ Fixpoint iupd_revert (b : block) (l : list ielem) : res (list ielem) :=
               Ok ({| ie_idx := ie_idx e; ie_basis := x |} :: t')
   end.
 
+(** * Which contract element rows the refresh touches
+   getContractStateElements reads the rows, UpdateContractElementProofs hands each of them to core's
+   updater and updateContractStateElements writes exactly those back (UPDATE .. WHERE contract_id=?);
+   a row that is not read keeps its leaf index and proof.  A [selection] decides from the columns of
+   the element's contracts_v2 row: its status and its renewed_to. *)
+Definition selection := cstatus -> option N -> bool.
+(* HEAD: SELECT contract_id, leaf_index, merkle_proof FROM contract_v2_state_elements *)
+Definition sel_all : selection := fun _ _ => true.
+
+Definition row_sel (sel : selection) (cs : list (N * cstatus)) (rn : list (N * N)) (e : celem) : bool :=
+  match alookup (ce_cid e) cs with
+  | Some st => sel st (alookup (ce_cid e) rn)
+  | None => true     (* no such row: contract_id REFERENCES contracts_v2(id) *)
+  end.
+
+Definition crefresh_apply (sel : selection) (cs : list (N * cstatus)) (rn : list (N * N)) (b : block)
+    (l : list celem) : list celem :=
+  map (fun e => if row_sel sel cs rn e then upd1_apply b e else e) l.
+
+Fixpoint crefresh_revert (sel : selection) (cs : list (N * cstatus)) (rn : list (N * N)) (b : block)
+    (l : list celem) : res (list celem) :=
+  match l with
+  | [] => Ok []
+  | e :: t =>
+      if row_sel sel cs rn e
+      then do x <- upd_revert b (ce_basis e) (ce_born e);
+           do t' <- crefresh_revert sel cs rn b t;
+           Ok ({| ce_cid := ce_cid e; ce_basis := x; ce_born := ce_born e; ce_rev := ce_rev e |} :: t')
+      else do t' <- crefresh_revert sel cs rn b t; Ok (e :: t')
+  end.
+
 (** * persist/sqlite/consensus.go, v2 contract rows *)
 Definition cset (c : N) (e : celem) (l : list celem) : list celem :=   (* INSERT .. ON CONFLICT (contract_id) DO UPDATE *)
   e :: filter (fun x => negb (ce_cid x =? c)%N) l.
@@ -111,13 +155,14 @@ Definition known (s : state) (c : N) : bool :=
   match alookup c (contracts s) with Some _ => true | None => false end.
 
 Definition set_c (s : state) (cs : list (N * cstatus)) (ce : list celem) : state :=
-  {| contracts := cs; celems := ce; ielems := ielems s; tip := tip s |}.
+  {| contracts := cs; renewed := renewed s; celems := ce; ielems := ielems s; tip := tip s |}.
 
 Definition kstatus (k : rkind) : cstatus :=
   match k with KSuccessful => SSuccessful | KRenewed => SRenewed | KFailed => SFailed end.
 
 (* ApplyContracts for one diff of block b.  Diffs of contracts the host does not have are
-   dropped by buildContractState (V2ContractRelevant). *)
+   dropped by buildContractState (V2ContractRelevant).  A renewal shows up as the resolution
+   (KRenewed) of the old contract and the formation of the new one in the same block. *)
 Definition apply_event (b : block) (s : state) (e : event) : res state :=
   match e with
   | EFormed c rev =>
@@ -190,25 +235,25 @@ Fixpoint fold_res (A B : Type) (f : A -> B -> res A) (l : list B) (a : A) : res 
 (** * host/contracts/update.go UpdateChainState *)
 Definition chainIndexBuffer : N := 144.
 
-Definition revert_block (s : state) (b : block) : res state :=
+Definition revert_block_g (sel : selection) (s : state) (b : block) : res state :=
   do s1 <- fold_res revert_event (grouped (b_events b)) s;                      (* RevertContracts *)
   let ie := filter (fun e => negb (idx_eqb (ie_idx e) (b_idx b))) (ielems s1) in (* RevertContractChainIndexElement *)
   do ie' <- iupd_revert b ie;                                                    (* UpdateChainIndexElementProofs(cru) *)
-  do ce' <- cupd_revert b (celems s1);                                           (* UpdateContractElementProofs(cru) *)
-  Ok {| contracts := contracts s1; celems := ce'; ielems := ie'; tip := tip s1 |}.
+  do ce' <- crefresh_revert sel (contracts s1) (renewed s1) b (celems s1);       (* UpdateContractElementProofs(cru) *)
+  Ok {| contracts := contracts s1; renewed := renewed s1; celems := ce'; ielems := ie'; tip := tip s1 |}.
 
 Definition iset (e : ielem) (l : list ielem) : list ielem :=     (* INSERT .. ON CONFLICT (id) DO UPDATE *)
   e :: filter (fun x => negb (ib (ie_idx x) =? ib (ie_idx e))%N) l.
 
-Definition apply_block (s : state) (b : block) : res state :=
+Definition apply_block_g (sel : selection) (s : state) (b : block) : res state :=
   do s1 <- fold_res (apply_event b) (grouped (b_events b)) s;                   (* ApplyContracts *)
   let ie := iupd_apply b (ielems s1) in                                          (* UpdateChainIndexElementProofs(cau) *)
-  let ce := cupd_apply b (celems s1) in                                          (* UpdateContractElementProofs(cau) *)
+  let ce := crefresh_apply sel (contracts s1) (renewed s1) b (celems s1) in      (* UpdateContractElementProofs(cau) *)
   let ie := iset {| ie_idx := b_idx b; ie_basis := Some (b_idx b) |} ie in       (* AddContractChainIndexElement *)
   let h := ih (b_idx b) in
   let ie := if (chainIndexBuffer <? h)%N                                         (* DeleteExpiredChainIndexElements *)
             then filter (fun e => negb (ih (ie_idx e) <=? h - chainIndexBuffer)%N) ie else ie in
-  Ok {| contracts := contracts s1; celems := ce; ielems := ie; tip := tip s1 |}.
+  Ok {| contracts := contracts s1; renewed := renewed s1; celems := ce; ielems := ie; tip := tip s1 |}.
 
 Definition last_idx (rs bs : list block) (d : option idx) : option idx :=
   match rev bs with
@@ -217,23 +262,29 @@ Definition last_idx (rs bs : list block) (d : option idx) : option idx :=
   end.
 
 (* one batch = one transaction (index/update.go): contract updates, then SetLastIndex *)
-Definition batch (s : state) (rs bs : list block) : res state :=
+Definition batch_g (sel : selection) (s : state) (rs bs : list block) : res state :=
   match rs, bs with
   | [], [] => Ok s
   | _, _ =>
-      do s1 <- fold_res revert_block rs s;
-      do s2 <- fold_res apply_block bs s1;
-      Ok {| contracts := contracts s2; celems := celems s2; ielems := ielems s2;
+      do s1 <- fold_res (revert_block_g sel) rs s;
+      do s2 <- fold_res (apply_block_g sel) bs s1;
+      Ok {| contracts := contracts s2; renewed := renewed s2; celems := celems s2; ielems := ielems s2;
             tip := last_idx rs bs (tip s2) |}
   end.
 
-(* ResetChainState: both element tables are emptied, the contracts keep their status *)
+(* the code: every row is refreshed *)
+Definition revert_block : state -> block -> res state := revert_block_g sel_all.
+Definition apply_block : state -> block -> res state := apply_block_g sel_all.
+Definition batch : state -> list block -> list block -> res state := batch_g sel_all.
+
+(* ResetChainState: both element tables are emptied, the contracts keep their status and renewed_to *)
 Definition reset (s : state) : state :=
-  {| contracts := contracts s; celems := []; ielems := []; tip := None |}.
+  {| contracts := contracts s; renewed := renewed s; celems := []; ielems := []; tip := None |}.
 
 (** * Operations and observations *)
 Inductive op :=
 | AddContract (c : N)                 (* contracts.Manager.AddV2Contract: a pending contract row *)
+| Renew (c r : N)                     (* contracts.Manager.RenewV2Contract at RPC time: pending row r, renewed_to of c := r *)
 | Batch (rs bs : list block)
 | Reset
 | Observe.
@@ -246,8 +297,9 @@ Inductive obs :=
 | ODone (c : cls)
 | OSkip
   (* contract elements (contract, proof valid at the processed tip, confirmed revision) sorted by contract;
-     chain index elements (index, proof valid at the processed tip) sorted by height; processed tip *)
-| OState (ce : list (N * bool * N)) (ie : list (idx * bool)) (t : option idx).
+     chain index elements (index, proof valid at the processed tip) sorted by height; processed tip;
+     renewed_to column (contract, renewal) sorted by contract *)
+| OState (ce : list (N * bool * N)) (ie : list (idx * bool)) (t : option idx) (rn : list (N * N)).
 
 Definition valid_at (t : option idx) (basis : option idx) : bool :=
   match t, basis with Some a, Some b => idx_eqb a b | _, _ => false end.
@@ -260,15 +312,30 @@ Definition sortk (A : Type) (key : A -> N) (l : list A) : list A := fold_right (
 Definition observe (s : state) : obs :=
   OState (map (fun e => (ce_cid e, valid_at (tip s) (ce_basis e), ce_rev e)) (sortk ce_cid (celems s)))
          (map (fun e => (ie_idx e, valid_at (tip s) (ie_basis e))) (sortk (fun e => ih (ie_idx e)) (ielems s)))
-         (tip s).
+         (tip s)
+         (sortk fst (renewed s)).
 
-Definition step (s : state) (o : op) : state * obs :=
+(* RenewV2Contract: Store.V2Contract(existing) must find the row; insertV2Contract fails on a known
+   contract id (UNIQUE); then UPDATE contracts_v2 SET renewed_to — whatever the status of the
+   existing contract, and with no effect on the element tables or the tip.  The manager's content
+   checks (file size, capacity and Merkle root of the new contract equal the existing one's) are not
+   modelled: the op carries ids only, the harness negotiates well-formed renewals. *)
+Definition renew (s : state) (c r : N) : option state :=
+  if known s c && negb (known s r)
+  then Some {| contracts := aset r SUnconfirmed (contracts s); renewed := aset c r (renewed s);
+               celems := celems s; ielems := ielems s; tip := tip s |}
+  else None.
+
+Definition step_g (sel : selection) (s : state) (o : op) : state * obs :=
   match o with
   | AddContract c =>
       if known s c then (s, ODone CErr)
-      else ({| contracts := aset c SUnconfirmed (contracts s); celems := celems s; ielems := ielems s; tip := tip s |}, ODone COk)
+      else ({| contracts := aset c SUnconfirmed (contracts s); renewed := renewed s; celems := celems s;
+               ielems := ielems s; tip := tip s |}, ODone COk)
+  | Renew c r =>
+      match renew s c r with Some s' => (s', ODone COk) | None => (s, ODone CErr) end
   | Batch rs bs =>
-      match batch s rs bs with
+      match batch_g sel s rs bs with
       | Ok s' => (s', ODone COk)
       | Err _ => (s, ODone CErr)
       | Panic => (s, ODone CPanic)
@@ -276,16 +343,19 @@ Definition step (s : state) (o : op) : state * obs :=
   | Reset => (reset s, ODone COk)
   | Observe => (s, observe s)
   end.
+Definition step : state -> op -> state * obs := step_g sel_all.
 
 Definition ce_eqb (a b : N * bool * N) : bool :=
   let '(c, v, r) := a in let '(c', v', r') := b in ((c =? c') && Bool.eqb v v' && (r =? r'))%N.
 Definition ie_eqb (a b : idx * bool) : bool := idx_eqb (fst a) (fst b) && Bool.eqb (snd a) (snd b).
+Definition rn_eqb (a b : N * N) : bool := ((fst a =? fst b) && (snd a =? snd b))%N.
 
 Definition obs_eqb (model seen : obs) : bool :=
   match model, seen with
   | _, OSkip => true
   | ODone a, ODone b => cls_eqb a b
-  | OState ce ie t, OState ce' ie' t' => list_eqb ce_eqb ce ce' && list_eqb ie_eqb ie ie' && oidx_eqb t t'
+  | OState ce ie t rn, OState ce' ie' t' rn' =>
+      list_eqb ce_eqb ce ce' && list_eqb ie_eqb ie ie' && oidx_eqb t t' && list_eqb rn_eqb rn rn'
   | _, _ => false
   end.
 
